@@ -364,3 +364,178 @@ Proof.
   destruct H as [Hd Hm]. cbn [Exec.run_many Sem.run_many].
   rewrite (exec_refines_sem p st fuel Hd). f_equal. apply IH. exact Hm.
 Qed.
+
+(* ================================================================== corollaries
+   All stated about the implementation model (Exec). *)
+
+(* ------------------------------------------------------------------ branch senses *)
+Definition binary_branch_sense (c : bcond) (P : Z -> Z -> Prop) : Prop :=
+  forall st pc r0 r1 t a b,
+    reg_ok r0 = true -> reg_ok r1 = true -> rd st r0 = Some a -> rd st r1 = Some b ->
+    (P a b -> execute_command (IBranch (BBin c r0 r1 t)) st pc = Ok (st, t)) /\
+    (~ P a b -> execute_command (IBranch (BBin c r0 r1 t)) st pc = Ok (st, pc + 1)).
+
+Definition unary_branch_sense (c : ucond) (P : Z -> Prop) : Prop :=
+  forall st pc r t a,
+    reg_ok r = true -> rd st r = Some a ->
+    (P a -> execute_command (IBranch (BUn c r t)) st pc = Ok (st, t)) /\
+    (~ P a -> execute_command (IBranch (BUn c r t)) st pc = Ok (st, pc + 1)).
+
+Ltac branch_tac :=
+  intros; rewrite unfold_exec; unfold handle_branch_instr; rw;
+  repeat match goal with H : rd _ _ = Some _ |- _ => rewrite H end;
+  cbn [bind check_binary check_unary fst snd].
+
+Theorem beq_sense : binary_branch_sense Ceq (fun a b => a = b).
+Proof.
+  unfold binary_branch_sense. intros st pc r0 r1 t a b H0 H1 Ha Hb. split; intro P; branch_tac.
+  - replace (a =? b) with true by lia. reflexivity.
+  - replace (a =? b) with false by lia. reflexivity.
+Qed.
+
+Theorem bne_sense : binary_branch_sense Cne (fun a b => a <> b).
+Proof.
+  unfold binary_branch_sense. intros st pc r0 r1 t a b H0 H1 Ha Hb. split; intro P; branch_tac.
+  - replace (a =? b) with false by lia. reflexivity.
+  - replace (a =? b) with true by lia. reflexivity.
+Qed.
+
+Theorem blt_sense : binary_branch_sense Clt (fun a b => a < b).
+Proof.
+  unfold binary_branch_sense. intros st pc r0 r1 t a b H0 H1 Ha Hb. split; intro P; branch_tac.
+  - replace (a <? b) with true by lia. reflexivity.
+  - replace (a <? b) with false by lia. reflexivity.
+Qed.
+
+Theorem bge_sense : binary_branch_sense Cge (fun a b => a >= b).
+Proof.
+  unfold binary_branch_sense. intros st pc r0 r1 t a b H0 H1 Ha Hb. split; intro P; branch_tac.
+  - replace (a >=? b) with true by lia. reflexivity.
+  - replace (a >=? b) with false by lia. reflexivity.
+Qed.
+
+Theorem bez_sense : unary_branch_sense Cez (fun a => a = 0).
+Proof.
+  unfold unary_branch_sense. intros st pc r t a H0 Ha. split; intro P; branch_tac.
+  - replace (a =? 0) with true by lia. reflexivity.
+  - replace (a =? 0) with false by lia. reflexivity.
+Qed.
+
+Theorem bnz_sense : unary_branch_sense Cnz (fun a => a <> 0).
+Proof.
+  unfold unary_branch_sense. intros st pc r t a H0 Ha. split; intro P; branch_tac.
+  - replace (a =? 0) with false by lia. reflexivity.
+  - replace (a =? 0) with true by lia. reflexivity.
+Qed.
+
+Theorem jmp_sense : forall st pc t, execute_command (IBranch (BJmp t)) st pc = Ok (st, t).
+Proof. reflexivity. Qed.
+
+(* ------------------------------------------------------------------ register file *)
+Lemma reg_eqb_refl : forall r, reg_eqb r r = true.
+Proof. intros [b i]. unfold reg_eqb, bank_eqb. cbn. rewrite !Z.eqb_refl. reflexivity. Qed.
+
+Lemma find_upd_same : forall (K V : Type) (eqb : K -> K -> bool) (k : K) (v : V) l,
+  (forall x, eqb x x = true) -> find eqb k (upd eqb k v l) = Some v.
+Proof.
+  intros K V eqb k v l R. induction l as [|[k' v'] t IH]; cbn.
+  - rewrite R. reflexivity.
+  - destruct (eqb k k') eqn:E; cbn; [rewrite R|rewrite E]; auto.
+Qed.
+
+Lemma rd_wr_same : forall st r v, rd (wr st r v) r = Some v.
+Proof. intros st r v. unfold rd, wr. cbn. apply find_upd_same. exact reg_eqb_refl. Qed.
+
+(* ------------------------------------------------------------------ addm / subm *)
+Theorem addm_subm_range : forall o st pc d ra rb rm a b m,
+  reg_ok d = true -> reg_ok ra = true -> reg_ok rb = true -> reg_ok rm = true ->
+  rd st ra = Some a -> rd st rb = Some b -> rd st rm = Some m -> 1 <= m ->
+  exists v,
+    execute_command (IClassical (COpm o d ra rb rm)) st pc = Ok (wr st d v, pc + 1) /\
+    rd (wr st d v) d = Some v /\
+    0 <= v < m /\
+    exists k, binop_val o a b = k * m + v.
+Proof.
+  intros o st pc d ra rb rm a b m Hd Ha Hb Hm Ra Rb Rm M.
+  exists (Z.modulo (binop_val o a b) m). split; [|split; [apply rd_wr_same|split]].
+  - rewrite unfold_exec. unfold inc_program_counter, handle_binary_classical_instr.
+    cbn [regin0 regin1 regout]. rw. rewrite Rm. cbn [bind].
+    replace (m <? 1) with false by lia. cbn [bind]. rw. rewrite Ra, Rb.
+    destruct o; cbn [compute_binary_classical_instr binop_val bind]; rw;
+      rewrite py_mod_modulo by lia; reflexivity.
+  - apply Z.mod_pos_bound. lia.
+  - exists (binop_val o a b / m). rewrite Z.mul_comm. apply Z.div_mod. lia.
+Qed.
+
+(* ------------------------------------------------------------------ lea, undef *)
+Theorem lea_sets_address : forall st pc r a, reg_ok r = true ->
+  execute_command (ILea r a) st pc = Ok (wr st r a, pc + 1) /\ rd (wr st r a) r = Some a.
+Proof.
+  intros st pc r a H. split; [|apply rd_wr_same].
+  rewrite unfold_exec. unfold inc_program_counter, instr_lea. rw. reflexivity.
+Qed.
+
+Lemma nth_error_sset_same : forall (A : Type) (l : list A) n v, (n < List.length l)%nat ->
+  nth_error (sset n v l) n = Some v.
+Proof.
+  intros A l n v H. unfold sset. rewrite nth_error_app2; rewrite firstn_length_le by lia; [|lia].
+  rewrite Nat.sub_diag. reflexivity.
+Qed.
+
+Lemma nth_error_firstn_lt : forall (A : Type) (l : list A) n k, (k < n)%nat ->
+  nth_error (firstn n l) k = nth_error l k.
+Proof.
+  intros A l. induction l as [|h t IH]; intros n k H.
+  - rewrite firstn_nil. reflexivity.
+  - destruct n; [lia|]. destruct k; [reflexivity|]. cbn. apply IH. lia.
+Qed.
+
+Lemma nth_error_skipn_add : forall (A : Type) (l : list A) n k,
+  nth_error (skipn n l) k = nth_error l (n + k).
+Proof.
+  intros A l. induction l as [|h t IH]; intros n k.
+  - rewrite skipn_nil. destruct k, n; reflexivity.
+  - destruct n; [reflexivity|]. cbn. apply IH.
+Qed.
+
+Lemma nth_error_sset_other : forall (A : Type) (l : list A) n v k, (n < List.length l)%nat -> k <> n ->
+  nth_error (sset n v l) k = nth_error l k.
+Proof.
+  intros A l n v k H Hk. unfold sset.
+  destruct (Nat.ltb k n) eqn:E.
+  - apply Nat.ltb_lt in E. rewrite nth_error_app1 by (rewrite firstn_length_le; lia).
+    apply nth_error_firstn_lt. exact E.
+  - apply Nat.ltb_ge in E. rewrite nth_error_app2 by (rewrite firstn_length_le; lia).
+    rewrite firstn_length_le by lia.
+    destruct (k - n)%nat as [|j] eqn:Ej; [lia|]. cbn [nth_error].
+    rewrite nth_error_skipn_add. f_equal. lia.
+Qed.
+
+Lemma sset_length : forall (A : Type) (l : list A) n v, (n < List.length l)%nat ->
+  List.length (sset n v l) = List.length l.
+Proof.
+  intros A l n v H. unfold sset. rewrite app_length. cbn [List.length].
+  rewrite firstn_length_le by lia. rewrite skipn_length. lia.
+Qed.
+
+(* undef makes exactly the addressed entry undefined, with a register or an
+   immediate index *)
+Theorem undef_clears_entry : forall st pc a ix n l,
+  opnd_ok ix = true -> oval st ix = Some n -> find Z.eqb a (arrs st) = Some l -> 0 <= n < Zlen l ->
+  let l' := sset (Z.to_nat n) None l in
+  execute_command (IUndef a ix) st pc = Ok (write_array a l' st, pc + 1) /\
+  find Z.eqb a (arrs (write_array a l' st)) = Some l' /\
+  nth_error l' (Z.to_nat n) = Some None /\
+  List.length l' = List.length l /\
+  forall k, k <> Z.to_nat n -> nth_error l' k = nth_error l k.
+Proof.
+  intros st pc a ix n l Hok Hv Hf Hn l'.
+  assert (Hlt : (Z.to_nat n < List.length l)%nat) by (unfold Zlen in Hn; lia).
+  split; [|split; [|split; [|split]]].
+  - rewrite unfold_exec. unfold inc_program_counter, instr_undef, set_array_entry. rw. rewrite Hv. cbn [bind].
+    rewrite arrays_setitem_spec by lia. rewrite Hf. replace (n <? Zlen l) with true by lia. reflexivity.
+  - unfold write_array. cbn [arrs]. apply find_upd_same. exact Z.eqb_refl.
+  - apply nth_error_sset_same. exact Hlt.
+  - apply sset_length. exact Hlt.
+  - intros k Hk. apply nth_error_sset_other; assumption.
+Qed.
